@@ -399,3 +399,73 @@ Definition td_check (p : iprog) (voff : N) (entries : list nat) (init : env)
   forallb (fun c => forallb (fun n => e_leq (ct_tpre c n) (tpre (ct_fn c) n) &&
                                       e_leq (ct_tpost c n) (tpost (ct_fn c) n))
                             (seq 0 (fn_nblocks (get_fn p (ct_fn c))))) certs.
+
+(* ------------------------------------------------------------------ certificates (untrusted helpers)
+   The tables of a context are recomputed by the intra-procedural engine, a callsite being
+   replaced by a stored summary the way the analyzer reuses summaries (first exact match, else
+   first summary whose precondition contains the callee's entry, else top).  Whatever these
+   helpers return is then checked by td_check. *)
+Section Hints.
+  Variable p : iprog.
+  Variable voff : N.
+  Variable S : list summ.
+  Variables delay desc efuel : nat.
+  Variable wtos : nat -> wto.
+
+  Definition hint_call (outs : list var) (g : nat) (ins : list var) (e : env) : env :=
+    if e_is_bot e then e
+    else
+      let fn := get_fn p g in
+      let fi := f_ins fn in
+      let fo := f_outs fn in
+      let ce := callee_entry voff outs ins fi fo e in
+      match find (fun sm => Nat.eqb (s_fn sm) g && e_leq ce (s_pre sm) && e_leq (s_pre sm) ce) S with
+      | Some sm => cont voff outs ins fi fo e (e_project (s_post sm) (fi ++ fo))
+      | None =>
+        match find (fun sm => Nat.eqb (s_fn sm) g && e_leq ce (s_pre sm)) S with
+        | Some sm => cont voff outs ins fi fo e (e_project (s_post sm) (fi ++ fo))
+        | None => cont voff outs ins fi fo e (e_project e_top (fi ++ fo))
+        end
+      end.
+  Definition hint_stmt (st : istmt) (e : env) : env :=
+    match st with IBase s => tr_stmt s e | ICall outs g ins => hint_call outs g ins e end.
+  Definition hint_block (bl : iblock) (e : env) : env := fold_left (fun acc st => hint_stmt st acc) bl e.
+
+  Definition mk_cert (f : nat) (pre : env) : cert :=
+    let fn := get_fn p f in
+    match srun env unit itv_ops (fun n e u => (hint_block (fn_block fn n) e, u))
+               (fn_preds fn) (nest_of (wtos f)) 0 delay desc efuel (wtos f) pre tt with
+    | Some st => mkCert f pre (se_pre env unit st) (se_post env unit st)
+    | None => mkCert f pre (fun _ => EBot) (fun _ => EBot)
+    end.
+End Hints.
+
+(* validation of (tables, summaries), whoever computed them: build the certificate, run the
+   verified checker *)
+Definition td_validate (p : iprog) (voff : N) (entries : list nat) (init : env)
+           (tpre tpost : nat -> nat -> env) (S : list summ)
+           (delay desc efuel : nat) (wtos : nat -> wto) : bool :=
+  let mk := mk_cert p voff S delay desc efuel wtos in
+  td_check p voff entries init tpre tpost
+           (map (fun f => mk f init) entries)
+           (map (fun sm => (sm, mk (s_fn sm) (s_pre sm))) S).
+
+(* the summaries stored by the model: get_summary(f) for every function, in order *)
+Definition g_summaries (p : iprog) (g : gst) : list summ :=
+  flat_map (fun f => map (fun c => mkSumm f (c_pre c) (c_post c)) (g_cc g f)) (seq 0 (length p)).
+
+(* 1 + the largest variable of the program *)
+Definition lmax (l : list var) : N := fold_left N.max l 0%N.
+Definition stmt_vars (s : stmt) : list var :=
+  match s with
+  | SAssign x e => x :: map snd (le_terms e)
+  | SArith _ x y z | SBit _ x y z => x :: y :: match z with OVar v => [v] | OCst _ => [] end
+  | SAssume c | SAssert c _ => lc_vars c
+  | SHavoc x => [x]
+  | SSelect x c e1 e2 => x :: lc_vars c ++ map snd (le_terms e1) ++ map snd (le_terms e2)
+  | SUnreach => []
+  end.
+Definition istmt_vars (s : istmt) : list var :=
+  match s with IBase s => stmt_vars s | ICall outs _ ins => outs ++ ins end.
+Definition prog_voff (p : iprog) : N :=
+  N.succ (lmax (flat_map (fun fn => fn_formals fn ++ flat_map (fun b => flat_map istmt_vars b) (f_blocks fn)) p)).
